@@ -5,8 +5,11 @@ CONSTANTS
   Literal <- LitTbl
   DecodeFirst = TRUE
   HandsOutCopy = TRUE
+  ViewReads = "view"
+  ReleasesView = FALSE
   MaxCalls = 3
 INVARIANT CarrierFree
 INVARIANT LoadAgrees
 INVARIANT NeverRaises
+INVARIANT InputIntact
 CHECK_DEADLOCK FALSE
